@@ -127,6 +127,8 @@ class Purity(object):
             return self.text_expr(v.left, at_node, depth) and self.text_expr(v.right, at_node, depth)
         if isinstance(v, ast.IfExp):
             return self.text_expr(v.body, at_node, depth) and self.text_expr(v.orelse, at_node, depth)
+        if isinstance(v, ast.JoinedStr):
+            return True
         return False
 
     def pure(self, e, at_node, _inlined=False):
@@ -222,6 +224,22 @@ class Purity(object):
                             return False
             self.why = "call %s(...) after the file was opened" % fn
             return False
+        if isinstance(e, ast.JoinedStr):
+            # f"...{x}..." formats x with format(x, ""): the same demands as %s of a constant format string
+            for part in e.values:
+                if isinstance(part, ast.Constant):
+                    continue
+                if not isinstance(part, ast.FormattedValue) or part.format_spec is not None or part.conversion not in (-1, 115, 114):
+                    self.why = "f-string with a format specification: %s" % unparse(e)[:80]
+                    return False
+                a = part.value
+                if not self.pure(a, at_node):
+                    return False
+                if isinstance(a, ast.Name) and not (self.text_local(a.id, at_node) or _const_str(self.prog, self.func, a) is not None
+                                                    or a.id in self.func.params[1:]):
+                    self.why = "{%s} in an f-string, which is not known to be text" % a.id
+                    return False
+            return True
         if isinstance(e, ast.BoolOp):
             return all(self.pure(v, at_node) for v in e.values)
         if isinstance(e, ast.UnaryOp) and isinstance(e.op, ast.Not):
